@@ -248,6 +248,12 @@ def pmap(chk: "Check", func, args, jobs: int = 8):
     if len(args) <= 1 or jobs <= 1:
         results = [_pmap_worker((func, a, chk.tier, chk.seed)) for a in args]
     else:
+        import gc
+
+        # keep the parent's heap (parsed ASTs, hash-consed DAG table) out of the children's garbage collections:
+        # without this every collection in a child touches - and thereby copies - all inherited pages
+        gc.collect()
+        gc.freeze()
         ctx = mp.get_context("fork")
         with ctx.Pool(min(jobs, len(args))) as pool:
             results = pool.map(_pmap_worker, [(func, a, chk.tier, chk.seed) for a in args], chunksize=1)
